@@ -148,6 +148,13 @@ PLANS = {
     "C12": [("link-cancel", 900, lambda rng: link_faulty(rng, lambda tr, c, r: o.o_C12(tr, c), kmax=1, cancel=True)),
             ("dest-cancel", 500, lambda rng: dest_any(rng, oc(o.o_C12))),
             ("source-cancel", 500, lambda rng: source_any(rng, oc(o.o_C12)))],
+    "C14": [("dest-fault-tables", 900, lambda rng: dest_any(rng, ot(o.o_C14), fault_p=1.0)),
+            ("source-fault-tables", 600, lambda rng: source_any(rng, ot(o.o_C14), fault_p=1.0)),
+            ("link-fault-tables", 500, lambda rng: link_faulty(
+                rng, lambda tr, c, r: o.o_C14(tr), kmax=3, cancel=True,
+                faults_d=g.rand_fault_table(rng, p=1.0),
+                faults_s=g.rand_fault_table(rng, ["POSITIVE_ACK_LIMIT_REACHED", "CHECK_LIMIT_REACHED",
+                                                  "CANCEL_REQUEST_RECEIVED"], p=1.0)))],
     "C15": [("link-faulty", 600, lambda rng: link_faulty(rng, lambda tr, c, r: o.o_C15(tr), cancel=True)),
             ("dest-arbitrary", 500, lambda rng: dest_any(rng, ot(o.o_C15), fault_p=0.3)),
             ("source-any", 500, lambda rng: source_any(rng, ot(o.o_C15), fault_p=0.3))],
